@@ -192,7 +192,42 @@ def gen_value_for(rng, probe, tp, in_range=True):
     raise TypeError(tp)
 
 
+def other_hash_seeds(ck):
+    """the whole comparison again, in fresh interpreters under other string-hash seeds (a field order that comes out of a set
+    or an unordered dict differs between processes, and is the same in both directions within one process)"""
+    import os
+    import subprocess
+    import sys
+    out = []
+    if os.environ.get("VERIF_SUBRUN"):
+        return out
+    for hs in ((1, 2) if ck.tier == "quick" else (1, 2, 3, 5, 8, 13)):
+        env = dict(os.environ, PYTHONHASHSEED=str(hs), VERIF_SUBRUN="1", VERIF_SEED=str(ck.seed + hs))
+        p = subprocess.run([sys.executable, str(Path(__file__).resolve().parent / "check.py"), PROP, "--tier", "quick"], env=env,
+                           stdout=subprocess.PIPE, stderr=subprocess.DEVNULL, text=True, timeout=3000)
+        lines = [l for l in p.stdout.splitlines() if l.startswith("VIOLATION")]
+        out.append((hs, p.returncode, lines))
+    return out
+
+
 def run(ck: vlib.Check):
+    sub = other_hash_seeds(ck)
+    try:
+        run_one(ck)
+    finally:
+        for hs, rc, lines in sub:
+            ck.evaluations += 1
+            ck.note_case(f"hashseed-subrun:{hs}")
+            if rc != 0:
+                first = lines[0] if lines else "the run failed without a VIOLATION line"
+                rp = first.split("replay=")[1].split()[0] if "replay=" in first else None
+                ck.violation(f"under PYTHONHASHSEED={hs} the comparison fails: {first}",
+                             {"kind": "hashseed-subrun", "hashseed": hs, "sub_replay": rp},
+                             "no-failing-input-found" not in first and bool(lines))
+        ck.extra["runs_under_other_hash_seeds"] = [hs for hs, _, _ in sub]
+
+
+def run_one(ck: vlib.Check):
     reps = 12 if ck.tier == "quick" else 400
     ck.rule = ("sentinel probing of every registered transcoder: records whose fields hold distinct values (reference "
                "fields inside and outside the existing id ranges, enum-typed fields over every member and some "
@@ -385,6 +420,13 @@ def run(ck: vlib.Check):
 
 def replay(path: str) -> int:
     rp = json.loads(Path(path).read_text())
+    if rp.get("kind") == "hashseed-subrun" and rp.get("sub_replay"):
+        import os
+        import subprocess
+        import sys
+        p = subprocess.run([sys.executable, str(Path(__file__).resolve().parent / "check.py"), PROP, "--replay", rp["sub_replay"]],
+                           env=dict(os.environ, PYTHONHASHSEED=str(rp["hashseed"])))
+        return p.returncode
     print("replaying:", rp.get("what"))
     if rp.get("kind") == "spec-field":
         probe = Probe()
